@@ -22,13 +22,8 @@ Definition parse_manip (m : manip) : option pmanip :=
   end.
 
 (* v1 initCertificate followed by the profile merge: what config.CertificateContent holds when HashSum is called *)
-(* the v1 conversion refuses a custom extension whose object identifier does not convert (in the certificate file or in the
-   profile file) before anything is merged or hashed *)
-Definition custom_oids_ok (l : list any_ext) : bool :=
-  forallb (fun x => match x with XCustom _ _ _ => match any_ext_oid x with Some _ => true | None => false end | _ => true end) l.
-
 Definition content_of (alias profile_name issuer : bytes) (p : option Effective.profile) (c : cert_cfg) (now : wall) : option content :=
-  if negb (custom_oids_ok (cc_exts c) && match p with Some pr => custom_oids_ok (map (@pe_ext any_ext) (pr_exts pr)) | None => true end) then None else
+  if negb (files_convert p c) then None else
   match effective p c with
   | None => None
   | Some e =>
